@@ -92,4 +92,35 @@ theorem filterKey_one_function (black white : List Bytes) (rcfg : Rump.Config) (
   rw [filterKey_models_agree_slot, filterKey_models_agree_keyfilter, filterKey_models_agree_rump, hb, hw, hb', hw']
   exact ⟨rfl, rfl⟩
 
+
+/-- the bytes of a configured list entry -/
+def bytesOf (s : String) : Bytes := s.toByteArray.data.toList
+
+private theorem bytesOf_inj (a b : String) (h : bytesOf a = bytesOf b) : a = b :=
+  String.toByteArray_inj.mp (ByteArray.ext (Array.toList_inj.mp h))
+
+private theorem matchOne_map (db : Nat) (l : List String) :
+    Filter.matchOne (Filter.formatInt (db : Int)) (l.map bytesOf) = l.contains (toString db) := by
+  induction l with
+  | nil => rfl
+  | cons s t ih =>
+    simp only [List.map_cons, Filter.matchOne, ih, List.contains_cons]
+    have hd : Filter.formatInt (db : Int) = bytesOf (toString db) := rfl
+    rw [hd]
+    by_cases hs : s = toString db
+    · subst hs; simp
+    · have h1 : (bytesOf s == bytesOf (toString db)) = false := by
+        simp only [beq_eq_false_iff_ne, ne_eq]; exact fun e => hs (bytesOf_inj _ _ e)
+      have h2 : (toString db == s) = false := by
+        simp only [beq_eq_false_iff_ne, ne_eq]; exact fun e => hs e.symm
+      rw [h1, h2]; simp
+
+/-- **one FilterDB.** The model of `filter.FilterDB` used for C06 (integers, byte lists) and the one used for C16
+    (naturals, strings) take the same decision on every database number under the same configured lists. -/
+theorem filterDB_models_agree (fcfg : Spec.Filter.Cfg) (rcfg : Rump.Config) (db : Nat)
+    (hb : fcfg.dbBlack = rcfg.dbBlack.map bytesOf) (hw : fcfg.dbWhite = rcfg.dbWhite.map bytesOf) :
+    Filter.filterDB fcfg (db : Int) = Rump.filterDB rcfg db := by
+  unfold Filter.filterDB Rump.filterDB
+  simp only [hb, hw, matchOne_map, List.length_map]
+  cases h1 : rcfg.dbBlack <;> cases h2 : rcfg.dbWhite <;> simp
 end RSVerif.Properties.C06
